@@ -22,7 +22,9 @@ INT_EDGES = [
 
 RESULT_CODES = [0, 1, 2, 3, 4, 5, 6, 7, 8, 10, 11, 12, 13, 14, 16, 17, 18, 19, 20, 21, 32, 33, 34, 36,
                 48, 49, 50, 51, 52, 53, 54, 64, 65, 66, 67, 68, 69, 71, 80]
-UNKNOWN_CODES = [9, 15, 22, 81, 255, 256, 4096, 2**31 - 1, -1, 118, 123, 128, 200, 32768, 65535, 2**31, 2**32 + 5, 2**40, -(2**31) - 1, 2**63]
+UNKNOWN_CODES = [9, 15, 22, 81, 255, 256, 4096, 2**31 - 1, -1, 118, 123, 128, 200, 32768, 65535, 2**31, 2**32 + 5, 2**40, -(2**31) - 1, 2**63,
+                 # pairs that agree in their low 8/16/32/64 bits with each other or with a known code
+                 90, 2**32 + 90, 2**64 + 90, 2**32 - 1, 2**32, 2**32 + 49, 256 + 49, 65536 + 32, -(2**32) + 9, 2**64 - 1, -256, 2**16 + 9]
 
 TEXT_ALPHABET = (
     "abcdefghijklmnopqrstuvwxyzABCXYZ0123456789 ,=+<>#;\\\"'()*/-_.:@"
@@ -174,7 +176,52 @@ def g_attrdesc(r: random.Random) -> str:
 
 # ------------------------------------------------------------------ controls, filters, messages
 
+KNOWN_OIDS = [PAGED_OID, SHOWDEL_OID, SHOWDEACT_OID, NOTICE_OID, "1.3.6.1.4.1.1466.20037", "1.3.6.1.4.1.4203.1.11.3", "1.3.6.1.4.1.4203.1.11.1"]
+_DIGIT_FAMILIES = [0xFF10, 0x0660, 0x06F0, 0x0966, 0x1D7CE]  # fullwidth, Arabic-Indic, extended Arabic-Indic, Devanagari, mathematical bold
+
+
+def g_lookalike_oid(r: random.Random, base: t.Optional[str] = None) -> str:
+    """A string that is NOT `base` but that a lenient comparison (numeric arcs through int(), strip(), casefold(),
+    Unicode normalisation) would take for it. For the library these are just other, unknown names."""
+    base = base or r.choice(KNOWN_OIDS)
+    arcs = base.split(".")
+    i = r.randrange(len(arcs))
+    a = arcs[i]
+    form = r.randrange(12)
+    if form == 0:
+        arcs[i] = "0" * r.choice([1, 2, 5]) + a
+    elif form == 1:
+        arcs[i] = "+" + a
+    elif form == 2 and len(a) > 1:
+        arcs[i] = a[0] + "_" + a[1:]
+    elif form == 3:
+        arcs[i] = r.choice([" ", "\t", "\n"]) + a
+    elif form == 4:
+        arcs[i] = a + r.choice([" ", "\n", "\r\n"])
+    elif form == 5:
+        fam = r.choice(_DIGIT_FAMILIES)
+        arcs[i] = "".join(chr(fam + int(ch)) for ch in a)
+    elif form == 6:
+        fam = r.choice(_DIGIT_FAMILIES)
+        k = r.randrange(len(a))
+        arcs[i] = a[:k] + chr(fam + int(a[k])) + a[k + 1:]
+    elif form == 7:
+        return r.choice([" ", "\n", "\ufeff", "\u200b"]) + base
+    elif form == 8:
+        return base + r.choice([" ", "\n", "\x00", ".", ".0", "\u200b"])
+    elif form == 9:
+        return r.choice(["OID.", "oid.", "urn:oid:"]) + base
+    elif form == 10:
+        return base.replace(".", r.choice(["\uff0e", "\u3002", ". ", ".."]), 1)
+    else:
+        arcs[i] = a + ".0" if i == len(arcs) - 1 else str(int(a) + 2**32)
+    out = ".".join(arcs)
+    return out if out != base else base + " "
+
+
 def g_unknown_oid(r: random.Random) -> str:
+    if r.random() < 0.15:
+        return g_lookalike_oid(r, r.choice([PAGED_OID, SHOWDEL_OID, SHOWDEACT_OID]))
     while True:
         o = r.choice(["1.2.3.4", "2.16.840.1.113730.3.4.2", "1.3.6.1.4.1.42.2.27.8.5.1", g_numericoid(r), "", "not-an-oid", "1.2.840.113556.1.4.3190"])
         if o not in (PAGED_OID, SHOWDEL_OID, SHOWDEACT_OID):
@@ -291,10 +338,14 @@ def g_body(r: random.Random, p: Profile, op: str):
     if op == "SearchResultReference":
         return (tuple(g_text(r, p) for _ in range(g_listlen(r, p))),)
     if op == "ExtendedRequest":
-        return (r.choice(["1.3.6.1.4.1.1466.20037", "1.3.6.1.4.1.4203.1.11.3", NOTICE_OID]) if r.random() < 0.6 else g_text(r, p),
-                g_opt(r, lambda: g_bytes(r, p)))
+        name = r.choice(["1.3.6.1.4.1.1466.20037", "1.3.6.1.4.1.4203.1.11.3", NOTICE_OID]) if r.random() < 0.6 else g_text(r, p)
+        if r.random() < 0.1:
+            name = g_lookalike_oid(r)
+        return (name, g_opt(r, lambda: g_bytes(r, p)))
     if op == "ExtendedResponse":
         name = g_opt(r, lambda: r.choice(["1.3.6.1.4.1.1466.20037", NOTICE_OID, ""]) if r.random() < 0.6 else g_text(r, p))
+        if r.random() < 0.1:
+            name = g_lookalike_oid(r)
         return (g_result(r, p), name, g_opt(r, lambda: g_bytes(r, p)))
     raise ValueError(op)
 
